@@ -38,6 +38,15 @@ Theorem C10_joined_equals_sequential : forall sched callss,
               cnt (run_hist info A accepts debug_args cfg init_state (g_order (fst st))) m i.
 Proof. exact (joined_equals_sequential info A accepts debug_args cfg). Qed.
 
+(* hence the count lines of the verdict (exactly / at least n, never called) computed after the join are those of that sequential
+   run: verification judges the same counters *)
+Theorem C10_joined_count_verdict_is_sequential : forall sched callss,
+  let st := run_sched sched (init_glob, threads_of callss) in
+  all_done A (snd st) = true ->
+  verify_all info cfg (g_state (fst st)) =
+  verify_all info cfg (run_hist info A accepts debug_args cfg init_state (g_order (fst st))).
+Proof. exact (joined_count_verdict_is_sequential info A accepts debug_args cfg). Qed.
+
 (* the shared error list holds exactly the mock-induced panics of all threads (C08, concurrent half) *)
 Theorem C10_errors_are_exactly_the_panics : forall sched callss,
   let st := run_sched sched (init_glob, threads_of callss) in
